@@ -4,7 +4,7 @@
 name=$1; patch=$2; shift 2
 cd /repo || exit 2
 if ! git diff --quiet; then echo "repo dirty"; exit 2; fi
-if ! git apply --check "$patch" 2>/dev/null; then echo "PATCH DOES NOT APPLY: $patch"; git apply --3way "$patch" || { git checkout -- .; exit 3; }; else git apply "$patch"; fi
+if ! git apply --check "$patch" 2>/dev/null; then echo "PATCH DOES NOT APPLY: $patch"; exit 3; else git apply "$patch"; fi
 res=""
 for c in "$@"; do
   out=$(cd /verif && ./check $c --tier quick 2>&1)
